@@ -42,6 +42,10 @@ def run_check(prop, repo, cache=None, tier="quick"):
 
 
 def compiles(repo):
+    sys.path.insert(0, VERIF)
+    from lib import extract as _ex
+    _ex.invalidate_workspace(os.path.join(VERIF, ".cache", "target", "mutcheck"),
+                             extra=("attr_options", "entry_properties", "forbid_unsafe", "weird_usage", "internals"))
     env = dict(os.environ, CARGO_NET_OFFLINE="true", CARGO_TARGET_DIR=os.path.join(VERIF, ".cache", "target", "mutcheck"))
     r = subprocess.run(["cargo", "check", "--offline", "--workspace", "--all-targets", "-q"], cwd=repo, env=env,
                        capture_output=True, text=True)
@@ -143,6 +147,30 @@ if __name__ == "__main__":
         cmd_try(a[1], a[2])
     elif a[0] == "save":
         cmd_save(a[1], a[2], " ".join(a[3:]))
+    elif a[0] == "verify":
+        # re-confirm that every stored mutant still applies and compiles (sequential: one shared target dir)
+        bad = 0
+        root = os.path.join(VERIF, "mutants")
+        for prop in sorted(os.listdir(root)):
+            if a[1:] and prop not in a[1:]:
+                continue
+            for f in sorted(os.listdir(os.path.join(root, prop))):
+                if not f.endswith(".patch"):
+                    continue
+                d = tempfile.mkdtemp(prefix="verif-mutverify-")
+                try:
+                    copy_repo(d)
+                    r = subprocess.run(["patch", "-p1", "-s", "-i", os.path.join(root, prop, f)], cwd=d, capture_output=True, text=True)
+                    ok = r.returncode == 0
+                    msg = "patch does not apply" if not ok else ""
+                    if ok:
+                        ok, err = compiles(d)
+                        msg = "" if ok else "does not compile"
+                    print("%-5s %-12s %s %s" % (prop, f[:-6], "ok" if ok else "BAD", msg), flush=True)
+                    bad += 0 if ok else 1
+                finally:
+                    shutil.rmtree(d, ignore_errors=True)
+        sys.exit(1 if bad else 0)
     elif a[0] == "run":
         jobs = 6
         rest = a[1:]
